@@ -11,7 +11,7 @@
 (* executor.  A `chunk` level between the initial state and the sets lets TLC's workers      *)
 (* share the evaluation (the worker that expands a state evaluates its successors).          *)
 (*                                                                                          *)
-(* Source = "all": every set of 1..MaxDecl declarations; "picks": the index tuples listed    *)
+(* Source = "all": every set of 1..MaxDecl declarations; "picks" (or "picks+sameurl"): the index tuples listed    *)
 (* in <EmitPrefix>picks.ndjson (a seeded sample of a larger space, chosen by the driver).                *)
 EXTENDS SpaceC13, Json
 
@@ -21,7 +21,11 @@ CONSTANTS KF_Shadow,   \* TRUE: the recorded finding "best pattern shadowed" is 
           EmitPrefix   \* "" = do not write case files
 
 Picks  == ndJsonDeserialize(EmitPrefix \o "picks.ndjson")
-TupleSource == IF Source = "all" THEN AllTuples ELSE {Picks[i] : i \in 1..Len(Picks)}
+\* "picks+sameurl": the picks and, coverage-directed, EVERY set of 3 declarations in which two declare the same URL for
+\* different methods (their method map is shared: what a third, overlapping declaration does to it is order-sensitive)
+SameUrl3 == {t \in Tuples(3) : \E i, j \in 1..3 : i < j /\ DeclSeq[t[i]].p = DeclSeq[t[j]].p}
+TupleSource == IF Source = "all" THEN AllTuples
+               ELSE {Picks[i] : i \in 1..Len(Picks)} \cup (IF Source = "picks+sameurl" THEN SameUrl3 ELSE {})
 
 ChunkOf(t) == SumIdx(t) % NChunks
 
@@ -29,7 +33,11 @@ ReqSeq == SetToSeq(Reqs)
 
 \* JSON-friendly form of an outcome
 SelJ(S)  == SetToSeq({[r |-> s.r, norm |-> s.norm, params |-> SetToSeq(s.params)] : s \in S})
-OutJ(o, v, cls) == [sel |-> SelJ(o.sel), dsel |-> SelJ(o.dsel), v |-> v, cls |-> SetToSeq(cls),
+OutJ(o, am, sm, cls) ==
+                   [sel |-> SelJ(o.sel), dsel |-> SelJ(o.dsel), cls |-> SetToSeq(cls),
+                    \* the readings under which the property accepts this outcome / accepts it or puts it in the shadow class
+                    am |-> SetToSeq(am), sm |-> SetToSeq(sm),
+                    v |-> IF am # {} THEN "ok" ELSE IF sm # {} THEN "shadow" ELSE "bad",
                     lk |-> [match |-> o.lk.match, norm |-> o.lk.norm, params |-> SetToSeq(o.lk.params)]]
 
 \* input class of a case (for the coverage report of the driver; not part of any verdict): which kind of
@@ -61,21 +69,35 @@ Group(t) ==
                                                nm |-> Cardinality({d \in D : MatchesX(d.p, ReqSeq[i].u)})]],
         exp    |-> [oi \in 1..Len(ords) |->
                      LET b == Build(Apply(ds, ords[oi])) IN
-                     [ri \in 1..Len(ReqSeq) |->
+                     \* rej: the loader refuses the configuration in this order (no outcome to judge)
+                     [rej  |-> Rejected(b),
+                      outs |-> IF Rejected(b) THEN <<>> ELSE
+                        [ri \in 1..Len(ReqSeq) |->
                         LET o == IOut(b, D, ReqSeq[ri].m, ReqSeq[ri].u)
-                        IN  OutJ(o, Verdict(D, ReqSeq[ri].m, ReqSeq[ri].u, o), Classes(D, ReqSeq[ri].m, ReqSeq[ri].u, o))]]]
+                            am == AM(D, ReqSeq[ri].m, ReqSeq[ri].u, o)
+                            \* (the shadow class only matters when no reading accepts outright)
+                            sm == IF am = 0..3 THEN am ELSE SM(D, ReqSeq[ri].m, ReqSeq[ri].u, o)
+                        IN  OutJ(o, am, sm, Classes(D, ReqSeq[ri].m, ReqSeq[ri].u, o))]]]]
 
-Count(g, v) == Cardinality({<<oi, ri>> \in (1..Len(g.orders)) \X (1..Len(g.reqs)) : g.exp[oi][ri].v = v})
+Live(g) == {oi \in 1..Len(g.orders) : ~g.exp[oi].rej}
+Cases(g) == Live(g) \X (1..Len(g.reqs))
+Count(g, v) == Cardinality({c \in Cases(g) : g.exp[c[1]].outs[c[2]].v = v})
+RECURSIVE Meet(_, _)
+Meet(S, acc) == IF S = {} THEN acc ELSE LET c == CHOOSE c \in S : TRUE IN Meet(S \ {c}, acc \cap c)
 Summary(g) ==
     [bad    |-> Count(g, "bad"),
      shadow |-> Count(g, "shadow"),
-     oi     |-> \A o1, o2 \in 1..Len(g.orders) : \A ri \in 1..Len(g.reqs) :
-                   /\ Range(g.exp[o1][ri].sel) = Range(g.exp[o2][ri].sel)
-                   /\ Range(g.exp[o1][ri].dsel) = Range(g.exp[o2][ri].dsel)
-                   /\ g.exp[o1][ri].lk.match = g.exp[o2][ri].lk.match /\ g.exp[o1][ri].lk.norm = g.exp[o2][ri].lk.norm
-                   /\ Range(g.exp[o1][ri].lk.params) = Range(g.exp[o2][ri].lk.params),
-     nsel   |-> Cardinality({<<oi, ri>> \in (1..Len(g.orders)) \X (1..Len(g.reqs)) : Len(g.exp[oi][ri].sel) > 0}),
-     ncases |-> Len(g.orders) * Len(g.reqs)]
+     oi     |-> /\ \A o1, o2 \in 1..Len(g.orders) : g.exp[o1].rej = g.exp[o2].rej
+                /\ \A o1, o2 \in Live(g) : \A ri \in 1..Len(g.reqs) :
+                   /\ Range(g.exp[o1].outs[ri].sel) = Range(g.exp[o2].outs[ri].sel)
+                   /\ Range(g.exp[o1].outs[ri].dsel) = Range(g.exp[o2].outs[ri].dsel)
+                   /\ g.exp[o1].outs[ri].lk.match = g.exp[o2].outs[ri].lk.match /\ g.exp[o1].outs[ri].lk.norm = g.exp[o2].outs[ri].lk.norm
+                   /\ Range(g.exp[o1].outs[ri].lk.params) = Range(g.exp[o2].outs[ri].lk.params),
+     nsel   |-> Cardinality({c \in Cases(g) : Len(g.exp[c[1]].outs[c[2]].sel) > 0}),
+     \* the readings under which EVERY outcome of this configuration is accepted (or in the tolerated shadow class)
+     modes  |-> Meet({Range(IF KF_Shadow THEN g.exp[c[1]].outs[c[2]].sm ELSE g.exp[c[1]].outs[c[2]].am) : c \in Cases(g)}, 0..3),
+     nrej   |-> Len(g.orders) - Cardinality(Live(g)),
+     ncases |-> Cardinality(Cases(g))]
 
 FileOf(t) == EmitPrefix \o ToString(t[1])
              \o (IF Len(t) >= 2 THEN "_" \o ToString(t[2]) ELSE "")
@@ -87,7 +109,7 @@ Evaluate(t) == LET g == Group(t) IN
 VARIABLES phase, chunk, tup, sum
 vars == <<phase, chunk, tup, sum>>
 
-NoSum == [bad |-> 0, shadow |-> 0, oi |-> TRUE, nsel |-> 0, ncases |-> 0]
+NoSum == [bad |-> 0, shadow |-> 0, oi |-> TRUE, nsel |-> 0, modes |-> 0..3, nrej |-> 0, ncases |-> 0]
 
 Init == phase = "start" /\ chunk = -1 /\ tup = <<>> /\ sum = NoSum
 
@@ -106,6 +128,9 @@ Spec == Init /\ [][Next]_vars
 
 Accepted         == sum.bad = 0 /\ (KF_Shadow \/ sum.shadow = 0)
 OrderIndependent == sum.oi
+\* the modelled implementation is right under ONE reading everywhere: the zero-tail wildcard matches, a parameter needs a
+\* non-empty segment (reading 0)
+OneReading       == 0 \in sum.modes
 
 \* witnesses (expected to be violated: they show that the interesting cases are in the space)
 NoSelection == sum.nsel = 0
